@@ -225,7 +225,7 @@ var c18Kinds = []ph.Kind{ph.Bool, ph.Incr, ph.Str, ph.Int, ph.Flt, ph.StrOpt, ph
 
 func defsC18() []*ph.Def {
 	var out []*ph.Def
-	descs := []string{"", "one line", "first line\nsecond line"}
+	descs := []string{"", "one line", "first line\nsecond line", "100% of it, %d or %s"} // the last one must not be taken for a format string
 	for _, k := range c18Kinds {
 		for nal := 0; nal <= 2; nal++ {
 			for _, req := range []bool{false, true} {
@@ -256,7 +256,7 @@ func defsC18() []*ph.Def {
 			d := &ph.Def{Help: withHelp, HelpAliases: nil, Root: ph.CmdDef{Name: "prog", Desc: "tree",
 				Opts: []ph.OptDef{{Name: "ropt", Kind: k, Min: 1, Max: 2, Aliases: []string{"r"}, Required: k == ph.Int || k == ph.StrS}, {Name: "verbose", Kind: ph.Bool}},
 				Cmds: []*ph.CmdDef{
-					{Name: "build", Desc: "builds things", Opts: []ph.OptDef{{Name: "target", Kind: ph.Str, Required: true, Desc: "what to build"}},
+					{Name: "build", Desc: "builds 100% of the things", Opts: []ph.OptDef{{Name: "target", Kind: ph.Str, Required: true, Desc: "what to build"}},
 						SynArgs: [][2]string{{"<file>", "input file"}, {"<out>", "output\nfile"}},
 						Cmds:    []*ph.CmdDef{{Name: "fast", Desc: "quick\nbuild", Opts: []ph.OptDef{{Name: "jobs", Kind: ph.Int, DefI: 4, Env: "VERIF_C18_JOBS"}}}}},
 					{Name: "wrap", Desc: "wrapper", Unset: true, Opts: []ph.OptDef{{Name: "wopt", Kind: ph.Bool}}},
@@ -389,7 +389,7 @@ func init() {
 	register(&Check{
 		ID:        "C18",
 		QuickSecs: 60, ThoroSecs: 300,
-		Rule: "complete finite product: 12 option kinds x alias count {0,1,2} x required x environment binding x description {none, one line, two lines} for the option of interest inside a three-option program (432 definitions), plus 24 command trees (every kind as inherited root option, commands with descriptions, sub-command, argument declarations, UnsetOptions wrapper, with and without help command) at every level, and the same definitions again with Help() rendered after every declaration step; " +
+		Rule: "complete finite product: 12 option kinds x alias count {0,1,2} x required x environment binding x description {none, one line, two lines, text with percent signs} for the option of interest inside a three-option program (576 definitions), plus 24 command trees (every kind as inherited root option, commands with descriptions, sub-command, argument declarations, UnsetOptions wrapper, with and without help command) at every level, and the same definitions again with Help() rendered after every declaration step; " +
 			"each help text is parsed structurally (sections, entries) and checked clause by clause, and the texts reached through the help option, the help command, Help() of the level's object and Help() of the root object after a Parse that selected the level are compared byte for byte; states = definitions x levels, transitions = help texts generated, distinct_nontrivial = distinct help texts",
 		Assume: []string{"the exact layout (padding, wrapping) is not part of the property and is not compared"},
 		Run: func(c *RunCtx) {
